@@ -225,7 +225,12 @@ pub fn cases(rng: &mut Rng, tier: &str, driver: &Driver) -> (Vec<Case>, bool) {
         (&["ABS = 5", "INT = 2.5", "RND = 0"], &[("PRINT ABS + 1", "6"), ("PRINT INT(INT) * INT", "5"), ("PRINT NOT ABS OR INT", "1"), ("PRINT ABS(0 - ABS) ^ 2", "25"), ("PRINT RND; ABS; INT", "052.5")]),
         (&["10 DEF F(X) = X * 2", "20 F = 7", "30 FNA = 1", "40 DEF FNA(Y) = Y + FNA", "RUN"], &[("PRINT F + F(1)", "9"), ("PRINT F * 2", "14"), ("PRINT FNA(1) + FNA", "3"), ("PRINT F(F) - F", "7")]),
     ];
-    for (setup, probes) in named {
+    let extremes: &[(&[&str], &[(&str, &str)])] = &[
+        // any non-zero number is true - however small - and a product is not a conjunction
+        (&["A = .1^200", "B = 10^400", "C = 0 - B", "Z = 0"], &[("PRINT A AND A", "1"), ("PRINT B AND Z", "0"), ("PRINT Z AND B", "0"), ("PRINT A OR Z", "1"), ("PRINT NOT A", "0"), ("PRINT B AND B", "1"),
+            ("PRINT A * A", "0"), ("PRINT (A AND B) + (C AND A)", "2"), ("PRINT B = B", "1"), ("PRINT C < B", "1"), ("PRINT A > Z", "1"), ("PRINT NOT (B - B)", "0"), ("PRINT (B - B) AND 1", "1"), ("PRINT INT(B) = B", "1")]),
+    ];
+    for (setup, probes) in named.iter().chain(extremes.iter()) {
         let mut ops = vec!["new 0 0".to_string()];
         let mut checks = vec![];
         for l in setup.iter() {
